@@ -44,12 +44,14 @@ class Cache:
         self.ahash = hashlib.md5()
 
         # hash arguments
+        self._update_hash_chunk(b"args", len(args).to_bytes(8, "little"))
         for arg in args:
             self._update_hash(arg)
 
         # hash keyword arguments
         kwds = list(kwargs.keys())
         kwds.sort()
+        self._update_hash_chunk(b"kwargs", len(kwds).to_bytes(8, "little"))
         for k in kwds:
             self._update_hash(k)
             self._update_hash(kwargs[k])
@@ -62,7 +64,7 @@ class Cache:
         ref = self.ahash.hexdigest()
 
         if ref in Cache._cache:
-            return Cache._cache[ref]
+            data = Cache._cache[ref]
         else:
             data = self.func(*args, **kwargs)
             Cache._cache[ref] = data
@@ -70,19 +72,46 @@ class Cache:
             if len(Cache._keys) > MAX_SIZE:
                 delref = Cache._keys.pop(0)
                 Cache._cache.pop(delref)
+        # Never hand out the cached object itself: in-place modifications
+        # by the caller must not change what later calls return.
+        return self._copy_result(data)
+
+    @staticmethod
+    def _copy_result(data):
+        """Return a copy of the arrays in a (possibly nested) result"""
+        if isinstance(data, np.ndarray):
+            return data.copy()
+        elif isinstance(data, (tuple, list)):
+            return type(data)(Cache._copy_result(d) for d in data)
+        else:
             return data
 
     def _update_hash(self, arg):
         """Takes an argument and updates the hash.
         The argument can be an np.array, string, or list
         of things that are convertable to strings.
+
+        Every item is hashed together with its type (for arrays:
+        dtype and shape) and its length, such that different argument
+        lists cannot result in the same sequence of hashed bytes.
         """
         if isinstance(arg, np.ndarray):
-            self.ahash.update(arg.view(np.uint8))
+            self._update_hash_chunk(b"ndarray", arg.dtype.str.encode("utf-8"))
+            data = np.ascontiguousarray(arg).reshape(-1).view(np.uint8)
+            self._update_hash_chunk(str(arg.shape).encode("utf-8"), data)
         elif isinstance(arg, list):
+            self._update_hash_chunk(b"list", len(arg).to_bytes(8, "little"))
             [self._update_hash(a) for a in arg]
         else:
-            self.ahash.update(str(arg).encode('utf-8'))
+            self._update_hash_chunk(type(arg).__name__.encode("utf-8"),
+                                    str(arg).encode('utf-8'))
+
+    def _update_hash_chunk(self, *chunks):
+        """Update the hash with length-prefixed chunks of bytes"""
+        for chunk in chunks:
+            chunk = memoryview(chunk)
+            self.ahash.update(chunk.nbytes.to_bytes(8, "little"))
+            self.ahash.update(chunk)
 
     @staticmethod
     def clear_cache():
